@@ -584,6 +584,22 @@ pub fn run(mode: Mode, cfg: &Cfg, rep: &mut Report) {
     }
     per_type!(U4, U7, U14, Channel, KeyNumber, ControllerNumber);
 
+    if mode == Mode::C04 && !cfg.as_c18 {
+        // every restricted integer returned by the message-producing APIs passes the range
+        // observer (decided in main: Range hits become C04 violations)
+        let mut sub = cfg.clone();
+        sub.as_c18 = true;
+        let mut ran = vec![];
+        for id in ["C01", "C06", "C07", "C09", "C10", "C11", "C12", "C14"] {
+            let mut r = Report::new();
+            sub.prop = id.to_string();
+            if super::run_prop(id, &sub, &mut r) {
+                ran.push(id);
+                rep.count("range_observer_sub_workload_evaluations", r.evaluations);
+            }
+        }
+        rep.notes.insert("range_observer_sub_workloads".into(), json!(ran));
+    }
     rep.evaluations += st.evals;
     // measured: inputs whose outcome is decided by the range check
     rep.distinct_nontrivial += st.accepted + st.rejected;
